@@ -1,13 +1,15 @@
 SPECIFICATION Spec
 CONSTANTS
-  KeysTop = {"a","b"}
+  KeysTop = {"a"}
   KeysNested = {"a"}
-  Depth = 2
+  Depth = 3
   Export = TRUE
   Catalogue = "strings"
   SizeTest = "order"
   Caught = {"TypeError","ValueError"}
 INVARIANT RoundTrip
 INVARIANT NoError
+INVARIANT SizeArith
+INVARIANT SizeFirm
 CONSTRAINT Emit
 CHECK_DEADLOCK FALSE
